@@ -10,6 +10,7 @@ def run(ctx, rep):
     numeric.r08g(ctx, rep)
     numeric.r08h(ctx, rep)
     numeric.r08j(ctx, rep)
+    numeric.r08k(ctx, rep)
     # R08f: the zero test the division procedures guard with
     sub = type(rep)(rep.prop)
     numeric.r09c(ctx, sub)
